@@ -108,6 +108,7 @@ func runC21() {
 	const maxRounds = 400
 	resume := map[int]int{} // shard -> first case index still to run
 	finished := map[int]bool{}
+	var fatalClasses []string // (operation, service, coarse class) of cases that killed a worker
 	nw := evid.Workers()
 	for round := 0; ; round++ {
 		spec := []string{}
@@ -119,8 +120,12 @@ func runC21() {
 			}
 		}
 		os.Setenv("C21_RESUME", strings.Join(spec, ","))
+		os.Setenv("C21_FATAL", strings.Join(fatalClasses, ";"))
 		deaths := evid.Sharded(r, 4<<30, func(s evid.ShardInfo, w *evid.Run) { c21worker(s, w, cases) })
 		died := map[int]bool{}
+		if len(deaths) > 0 {
+			fmt.Fprintf(os.Stderr, "C21: round %d: %d worker processes died; resuming their shards\n", round, len(deaths))
+		}
 		for _, d := range deaths {
 			died[d.Shard] = true
 			idx, err := strconv.Atoi(strings.SplitN(d.LastCase, "|", 2)[0])
@@ -133,6 +138,7 @@ func runC21() {
 			}
 			c := cases[idx]
 			pt := panicText(d.Stderr)
+			fatalClasses = append(fatalClasses, fatalClass(c))
 			r.Eval(c.key())
 			r.Outcome("process-died")
 			b, _ := json.Marshal(c.Script)
@@ -152,10 +158,15 @@ func runC21() {
 			break
 		}
 	}
+	if len(fatalClasses) > 0 {
+		r.Capped("after a case killed a worker process, the remaining cases of the same (operation, service, response class) were not run (counted as not_judged): " + strings.Join(fatalClasses, "; "))
+	}
 	r.Set("operations", len(ops))
 	r.Set("response_types", len(respTypes))
 	r.Finish()
 }
+
+func fatalClass(c c21case) string { return c.Op + "|" + c.Svc + "|" + coarseClass(c.Class) }
 
 func tail(s string, n int) string {
 	if len(s) > n {
@@ -176,16 +187,28 @@ func c21worker(s evid.ShardInfo, w *evid.Run, cases []c21case) {
 	if start < 0 {
 		return
 	}
+	fatal := map[string]bool{}
+	for _, f := range strings.Split(os.Getenv("C21_FATAL"), ";") {
+		if f != "" {
+			fatal[f] = true
+		}
+	}
 	var srv *c21srv
 	out := os.Getenv("VERIF_SHARD_OUT")
 	for i := start; i < len(cases); i++ {
 		if !s.Mine(int64(i)) {
 			continue
 		}
+		c := cases[i]
+		if fatal[fatalClass(c)] {
+			// a case of this class already killed a worker: one finding, not one process per case
+			w.NotJudged(1)
+			w.Outcome("not-run:same-class-as-a-fatal-case")
+			continue
+		}
 		if srv == nil {
 			srv = newC21Server()
 		}
-		c := cases[i]
 		// checkpoint, so that the parent keeps what was done if this case kills the process
 		w.WritePartial(out)
 		evid.Publish(strconv.Itoa(i) + "|" + c.Op + "/" + c.Svc + "/" + c.Class)
